@@ -16,6 +16,8 @@ func drawWithinLimits(r *core.Rng, slotty, boundary bool) (*exifCase, bool) {
 		if ec.class == "many-pending" && r.Bool() {
 			// exactly at the documented capacity: unknown out-of-line entries are added to the Exif
 			// directory until the pending-table model reads 84 (one more would be one too many)
+			gen.DropForeignAbove(ec.rec.Exif) // the entry added last (the one lost when a slot is missing) is a known one
+			b = ec.build(false, true)
 			for k := 0; k < 90 && b.MaxPending < 84; k++ {
 				ec.rec.Exif.Add(uint16(0x7000+k), gen.ASCII("filler-value-"+fmt.Sprint(k)))
 				ec.rec.Exif.Sort()
